@@ -55,8 +55,10 @@ def central(n, ps):
 
 def inv_fields(n, ps, lo, hi):
     nr, mu, c2, c3, c4 = central(n, ps)
-    return {"_n": n, "_sum": ps[0], "_m1": mu, "_m2": c2, "_m3": c3, "_m4": c4, "_min": lo, "_max": hi,
-            "_name": "t"}
+    from pydsol.core.statistics import Tally
+    f = A.ctor_defaults(Tally, "t")
+    f.update({"_n": n, "_sum": ps[0], "_m1": mu, "_m2": c2, "_m3": c3, "_m4": c4, "_min": lo, "_max": hi, "_name": "t"})
+    return f
 
 
 def realizable(n, ps, lo, hi):
@@ -468,9 +470,16 @@ def run(ctx):
 
     # ------------------------------------------------------------------ Engine A: event-publishing variants
     k = 3 if ctx.tier == "quick" else 4
+    hl = 6 if ctx.tier == "quick" else 7
+    neq = 16 if ctx.tier == "quick" else 64
     ctx.crosshair([Cond(f"event-tally/K={k}(subscriber attached: register never raises, every published value equals its getter)",
                         "c09", "h_eb_tally", {"VF_K": k}, 900 if ctx.tier == "quick" else 3600),
-                   Cond(f"counter+event-counter/K={k}(symbolic ints)", "c09", "h_counter", {"VF_K": k}, 900 if ctx.tier == "quick" else 3600)])
+                   Cond(f"counter+event-counter/K={k}(symbolic ints)", "c09", "h_counter", {"VF_K": k}, 900 if ctx.tier == "quick" else 3600),
+                   *[Cond(f"history of {hl} register/initialize/query operations ({'event-publishing' if eb else 'plain'} tally): the "
+                          "reported values equal those of a new tally fed the observations since the last initialisation", "c09",
+                          "h_history", {"VF_HL": hl, "VF_EB": eb}, 900 if ctx.tier == "quick" else 3600) for eb in (0, 1)],
+                   Cond(f"all-equal data (doubles that do not sum exactly), n <= {neq}: variance 0 to accuracy, skewness/kurtosis NaN, "
+                        "confidence interval ordered and at the value", "c09", "h_equal", {"VF_NEQ": neq}, 900 if ctx.tier == "quick" else 3600)])
     ctx.bounds = {"tally": "inductive over exact reals: arbitrary ghost state (n>=1, raw power sums, min, max) + one register; "
                            "no bound on history length; getters on every realisable invariant state",
                   "event variants": f"{k} observations from a 5-value grid incl. repeats and 1e6, optional initialize in between",
